@@ -309,7 +309,10 @@ def first_diff_excerpt(a, b):
     la, lb = a.split(b"\n"), b.split(b"\n")
     for i, (x, y) in enumerate(zip(la, lb)):
         if x != y:
-            return {"line": i + 1, "run_a": x[:300].decode("utf-8", "replace"), "run_b": y[:300].decode("utf-8", "replace")}
+            c = next((k for k in range(min(len(x), len(y))) if x[k] != y[k]), min(len(x), len(y)))
+            lo = max(0, c - 120)
+            return {"line": i + 1, "column": c + 1, "run_a": x[lo:c + 180].decode("utf-8", "replace"),
+                    "run_b": y[lo:c + 180].decode("utf-8", "replace")}
     return {"line": min(len(la), len(lb)) + 1, "run_a": "<%d lines>" % len(la), "run_b": "<%d lines>" % len(lb)}
 
 
@@ -498,16 +501,19 @@ def report(rep, violations, known_hits, listed, pr, diag, static):
                            "note": "matches the signature of proposed known finding %s (docs/C07.md); not listed in known_findings.json "
                                    "and the fix patch repo_patches/C07-*.diff is not applied" % fid,
                            "job_kind": job["kind"], "replay": "python3 tools/check.py C07 --replay <this file>"}, tag="finding=" + fid)
+    # one VIOLATION line per (tool, job kind, artefact): further inputs with the same symptom are listed in it
     seen_causes = {}
+    merged = []
     for v in violations:
-        job = v["job"]
         if v["kind"] == "nondeterministic-output":
-            # one VIOLATION line per (tool, job kind, artefact): further inputs with the same symptom are listed in it
-            cause = (job["tool"], job["kind"], v["diffs"][0]["name"])
+            cause = (v["job"]["tool"], v["job"]["kind"], v["diffs"][0]["name"])
             if cause in seen_causes:
-                seen_causes[cause].append(job["inputs"][0])
+                seen_causes[cause].append(v["job"]["inputs"][0])
                 continue
             seen_causes[cause] = v["also_on_inputs"] = []
+        merged.append(v)
+    for v in merged:
+        job = v["job"]
         if v["kind"] == "timeout":
             rep.violation({"property": PROP, "kind": "timeout", "tool": job["tool"], "argv": job["argv"], "inputs": job["inputs"],
                            "detail": v["detail"], "job_kind": job["kind"]})
